@@ -65,6 +65,24 @@ def gen_cases(rng, tier, scale):
                 continue
             cases.append(rcase(f'c{k}', t, {}, entry=4, kind='whole', s=s, exp='x' + s + 'y' + 'x' + s + 'y' + 'z', tags=['comment']))
         k += 1
+    # text next to a comment that follows (or precedes) a tag with `~`: a comment writes nothing and is a tag
+    # boundary, so the `~` of the neighbouring tag reaches the comment and no further
+    from wsspec import tag as _t, text as _x, expected as _exp, source as _src
+    j = 0
+    for pre_ in (_t('v', False, False, True, 'V'), _t('v', False, False, False, 'V'), _t('v', False, True, True, 'V')):
+        for com in ('!c', '!-- c --', '! -- c --'):
+            for mid in ('', ' '):
+                for after in (' x', '  ', ' \n y', 'x', '\t{{v}}'):
+                    for post in (None, _t('v', False, True, False, 'V')):
+                        items = [_x('a '), pre_] + ([_x(mid)] if mid else []) + [_t(com, True)]
+                        if after.endswith('{{v}}'):
+                            items += [_x(after[:-5]), _t('v', False, False, False, 'V')]
+                        else:
+                            items += [_x(after)]
+                        if post:
+                            items += [post, _x(' z')]
+                        cases.append(rcase(f'tc{j}', _src(items), {'v': 'V'}, entry=4, kind='whole', s=' ', exp=_exp(items), tags=['tilde-comment']))
+                        j += 1
     return cases
 
 def oracle(c, io, mo):
@@ -82,5 +100,3 @@ def nontrivial(c, mo, io):
 def relevant_difference(c, mo, io):
     return res_of(mo).get('out') != res_of(io).get('out') or res_of(mo)['kind'] != res_of(io)['kind']
 
-def known_F2_raw_leading_ws(c, mo, io):
-    return c['kind'] == 'raw' and c['s'][:1] in (' ', '\t', '\r', '\n')
